@@ -21,7 +21,9 @@ use vf_core::{catch, ensure, Check, Gen, Outcome, Part};
 #[derive(Clone, Debug, PartialEq)]
 enum Msg {
     None,
-    Plain { mime: usize, body: usize, bytes: bool },
+    /// `mime` / `body` are lengths in *bytes* (what the configuration limits); `wide` builds the
+    /// strings from 1-4-byte UTF-8 characters so that the character count is smaller than the byte length
+    Plain { mime: usize, body: usize, bytes: bool, wide: bool },
     Enc { payload: usize, ed: Option<usize>, secp: Option<usize>, mismatch: bool },
 }
 
@@ -191,8 +193,30 @@ fn inside(g: &mut Gen, limit: usize, small: usize) -> usize {
 
 // ---- building -------------------------------------------------------------------------------
 
-fn text(n: usize) -> String {
-    "a".repeat(n)
+/// A string of exactly `n` bytes; `wide` mixes 4-, 3-, 2- and 1-byte characters (so it has fewer
+/// characters than bytes whenever n >= 2).
+fn text(n: usize, wide: bool) -> String {
+    if !wide {
+        return "a".repeat(n);
+    }
+    const CHARS: [char; 4] = ['\u{1F600}', '\u{20AC}', '\u{e9}', 'a'];
+    let mut s = String::with_capacity(n);
+    let mut i = 0;
+    while s.len() < n {
+        let left = n - s.len();
+        let mut c = CHARS[i % 4];
+        i += 1;
+        while c.len_utf8() > left {
+            c = match c.len_utf8() {
+                4 => CHARS[1],
+                3 => CHARS[2],
+                _ => CHARS[3],
+            };
+        }
+        s.push(c);
+    }
+    debug_assert_eq!(s.len(), n);
+    s
 }
 
 fn fingerprints(n: usize, salt: u8) -> Vec<PublicKeyFingerprint> {
@@ -202,9 +226,9 @@ fn fingerprints(n: usize, salt: u8) -> Vec<PublicKeyFingerprint> {
 fn msg_v1(m: &Msg) -> MessageV1 {
     match m {
         Msg::None => MessageV1::None,
-        Msg::Plain { mime, body, bytes } => MessageV1::Plaintext(PlaintextMessageV1 {
-            mime_type: text(*mime),
-            message: if *bytes { MessageContentsV1::Bytes(vec![7; *body]) } else { MessageContentsV1::String(text(*body)) },
+        Msg::Plain { mime, body, bytes, wide } => MessageV1::Plaintext(PlaintextMessageV1 {
+            mime_type: text(*mime, *wide),
+            message: if *bytes { MessageContentsV1::Bytes(vec![7; *body]) } else { MessageContentsV1::String(text(*body, *wide)) },
         }),
         Msg::Enc { payload, ed, secp, mismatch } => {
             let mut map: IndexMap<CurveType, DecryptorsByCurve> = IndexMap::default();
@@ -226,9 +250,9 @@ fn msg_v1(m: &Msg) -> MessageV1 {
 fn msg_v2(m: &Msg) -> MessageV2 {
     match m {
         Msg::None => MessageV2::None,
-        Msg::Plain { mime, body, bytes } => MessageV2::Plaintext(PlaintextMessageV1 {
-            mime_type: text(*mime),
-            message: if *bytes { MessageContentsV1::Bytes(vec![7; *body]) } else { MessageContentsV1::String(text(*body)) },
+        Msg::Plain { mime, body, bytes, wide } => MessageV2::Plaintext(PlaintextMessageV1 {
+            mime_type: text(*mime, *wide),
+            message: if *bytes { MessageContentsV1::Bytes(vec![7; *body]) } else { MessageContentsV1::String(text(*body, *wide)) },
         }),
         Msg::Enc { payload, ed, secp, mismatch } => {
             let mut map: IndexMap<CurveType, DecryptorsByCurveV2> = IndexMap::default();
@@ -381,7 +405,7 @@ fn intent_violations(cfg: &TransactionValidationConfig, required_network: Option
 fn inside_msg(g: &mut Gen, c: &MessageValidationConfig) -> Msg {
     match g.weighted(&[3, 2, 2]) {
         0 => Msg::None,
-        1 => Msg::Plain { mime: inside(g, c.max_mime_type_length, 6), body: inside(g, c.max_plaintext_message_length, 8), bytes: g.bool() },
+        1 => Msg::Plain { mime: inside(g, c.max_mime_type_length, 6), body: inside(g, c.max_plaintext_message_length, 8), bytes: g.bool(), wide: g.bool() },
         _ => {
             if c.max_decryptors == 0 {
                 return Msg::None;
@@ -531,11 +555,11 @@ fn probe(g: &mut Gen, cfg: &TransactionValidationConfig, t: &mut TxShape) -> &'s
             "probe: tip"
         }
         3 => {
-            t.intents[k].msg = Msg::Plain { mime: around(g, mv.max_mime_type_length, 300), body: inside(g, mv.max_plaintext_message_length, 4), bytes: g.bool() };
+            t.intents[k].msg = Msg::Plain { mime: around(g, mv.max_mime_type_length, 300), body: inside(g, mv.max_plaintext_message_length, 4), bytes: g.bool(), wide: !g.chance(1, 3) };
             "probe: mime type length"
         }
         4 => {
-            t.intents[k].msg = Msg::Plain { mime: inside(g, mv.max_mime_type_length, 4), body: around(g, mv.max_plaintext_message_length, 5000), bytes: g.bool() };
+            t.intents[k].msg = Msg::Plain { mime: inside(g, mv.max_mime_type_length, 4), body: around(g, mv.max_plaintext_message_length, 5000), bytes: g.chance(1, 3), wide: !g.chance(1, 3) };
             "probe: plaintext length"
         }
         5 => {
@@ -732,6 +756,16 @@ fn case(g: &mut Gen) -> Outcome {
         g.label(p);
     }
     g.label(if v2 { "v2" } else { "v1" });
+    for sh in &t.intents {
+        if let Msg::Plain { mime, body, bytes, wide: true } = &sh.msg {
+            if *mime >= 2 {
+                g.label("mime type with multi-byte characters (chars < bytes)");
+            }
+            if *body >= 2 && !*bytes {
+                g.label("plaintext string with multi-byte characters (chars < bytes)");
+            }
+        }
+    }
     if t.intents.iter().map(|s| s.n_refs).max().unwrap_or(0) > 64 || t.intents.iter().any(|s| s.extra_instructions > 200) {
         g.label("large (preset configuration boundary)");
     }
@@ -911,7 +945,7 @@ pub fn check() -> Check {
     Check::new(
         "C34",
         "Transaction validation enforces exactly the configured limits",
-        "Configurations: generated TransactionValidationConfig with small limits (2/3 of cases), babylon, cuttlefish; validator bound to a network or network-agnostic. A V1 transaction or a V2 transaction with 0-3 (up to 6 for depth probes) subintents is drawn inside all limits, then 0-2 dimensions are moved to limit-1 / limit / limit+1: network id, epoch window (empty, reversed, max-1, max, max+1), tip percentage / basis points (min-1, min, max, max+1), mime / plaintext / encrypted lengths, decryptor count (split over curves), malformed decryptor maps, instruction count, references per intent and in total, blob count, signatures per intent and total signature validations, timestamp window, touching / one-epoch-overlap / disjoint epoch windows across intents, timestamp-only empty intersections, subintent chain depth, V2 not allowed. Oracle: a transcription of the property statement over those numbers: accepted iff no condition is violated; when exactly one family of conditions is violated the error belongs to that family; overall_validity_range equals the harness's intersection. Non-trivial = at least one dimension placed on a boundary.",
+        "Configurations: generated TransactionValidationConfig with small limits (2/3 of cases), babylon, cuttlefish; validator bound to a network or network-agnostic. A V1 transaction or a V2 transaction with 0-3 (up to 6 for depth probes) subintents is drawn inside all limits, then 0-2 dimensions are moved to limit-1 / limit / limit+1: network id, epoch window (empty, reversed, max-1, max, max+1), tip percentage / basis points (min-1, min, max, max+1), mime / plaintext / encrypted lengths in bytes (strings built from 1-4-byte UTF-8 characters in most probes, so character count < byte length), decryptor count (split over curves), malformed decryptor maps, instruction count, references per intent and in total, blob count, signatures per intent and total signature validations, timestamp window, touching / one-epoch-overlap / disjoint epoch windows across intents, timestamp-only empty intersections, subintent chain depth, V2 not allowed. Oracle: a transcription of the property statement over those numbers: accepted iff no condition is violated; when exactly one family of conditions is violated the error belongs to that family; overall_validity_range equals the harness's intersection. Non-trivial = at least one dimension placed on a boundary.",
     )
     .assume("epochs stay far below u64::MAX (the code rejects windows whose start + max range overflows; the statement does not require that)")
     .part(Part::new("limits", 2_000_000, 60_000_000, 400, case))
